@@ -131,7 +131,8 @@ def check_session_key(rep, prog):
                               scenario=scen)
                 else:
                     m = taint.entropy_call(k_data or '')
-                    ok = m is not None and (k_data or '').endswith('.gen_key()') and m.group('alg') == alg_data
+                    ok = m is not None and (k_data or '').endswith('.gen_key()') and m.group('alg') == alg_data and \
+                        len(taint.draws(d['state'], 'gen_key')) == 1          # one draw: both packets get THE key, not two equal-looking ones
                     rep.check(ok, 'C13.2', construct, '%s: session key = %s' % (scen, k_data),
                               'when no session key is supplied it must be <cipher>.gen_key() of the cipher the data is encrypted with, '
                               'generated inside this call', where=fi.where, expected='%s.gen_key()' % alg_data, found=k_data, scenario=scen)
@@ -153,7 +154,7 @@ def check_skesk_salt(rep, prog):
         if s.raised:
             continue
         salts = [v for p, v, l, _ in s.stores if p == 'self.s2k.salt']
-        rep.check(salts == ['os.urandom(8)'], 'C13.2', 'SKESessionKeyV4.encrypt_sk', 'salt = %s' % salts,
+        rep.check(salts == ['os.urandom(8)'] and len(taint.draws(s, 'urandom')) == 1, 'C13.2', 'SKESessionKeyV4.encrypt_sk', 'salt = %s' % salts,
                   'every passphrase encryption must draw a fresh 8-octet salt', where=fi.where, expected='self.s2k.salt = os.urandom(8)',
                   found=salts)
         # the salt is set before the key is derived from it
@@ -176,7 +177,7 @@ def check_seipd_prefix(rep, prog):
             continue
         a = list(enc[0][1])
         its = split_items(a[0]) if a else []
-        rep.check(its[:3] == PREFIX and len(its) > 3, 'C13.2', W, 'plaintext %s' % ' '.join(its)[:80],
+        rep.check(its[:3] == PREFIX and len(its) > 3 and len(taint.draws(s, 'gen_iv')) == 1, 'C13.2', W, 'plaintext %s' % ' '.join(its)[:80],
                   'the plaintext must start with a fresh random block of the cipher in use, its last two octets repeated',
                   where=fi.where, expected=' '.join(PREFIX) + ' ...', found=' '.join(its)[:120])
         rep.check(len(a) == 3 and a[2] == 'alg' and not enc[0][2], 'C13.2', W, '_encrypt args %s' % a[1:],
@@ -192,10 +193,11 @@ def check_keyblob(rep, prog):
         iv = [v for p, v, l, _ in s.stores if p == 'self.s2k.iv']
         salt = [v for p, v, l, _ in s.stores if p == 'self.s2k.salt']
         alg = [v for p, v, l, _ in s.stores if p == 'self.s2k.encalg']
-        rep.check(iv == ['enc_alg.gen_iv()'] and alg == ['enc_alg'], 'C13.2', 'PrivKey.encrypt_keyblob', 'iv = %s (cipher %s)' % (iv, alg),
+        rep.check(iv == ['enc_alg.gen_iv()'] and alg == ['enc_alg'] and len(taint.draws(s, 'gen_iv')) == 1, 'C13.2', 'PrivKey.encrypt_keyblob',
+                  'iv = %s (cipher %s)' % (iv, alg),
                   'key protection must draw a fresh IV of the protection cipher', where=fi.where, expected='self.s2k.iv = enc_alg.gen_iv()',
                   found=iv)
-        rep.check(salt == ['os.urandom(8)'], 'C13.2', 'PrivKey.encrypt_keyblob', 'salt = %s' % salt,
+        rep.check(salt == ['os.urandom(8)'] and len(taint.draws(s, 'urandom')) == 1, 'C13.2', 'PrivKey.encrypt_keyblob', 'salt = %s' % salt,
                   'key protection must draw a fresh 8-octet salt', where=fi.where, expected='self.s2k.salt = os.urandom(8)', found=salt)
         enc = [c for c in s.calls if c[0] == '_encrypt']
         ok = len(enc) == 1 and len(enc[0][1]) == 4 and not enc[0][2] and enc[0][1][3] == 'enc_alg.gen_iv()' and enc[0][1][2] == 'enc_alg'
@@ -223,7 +225,8 @@ def check_ecdh(rep, prog):
             continue
         v = ex[0][0][:-len('.exchange')]
         m = taint.entropy_call(v)
-        rep.check(m is not None, 'C13.2', 'ECDHCipherText.encrypt', 'ephemeral key = %s' % v,
+        ndraw = len(taint.draws(s, 'generate')) + len(taint.draws(s, 'generate_private_key'))
+        rep.check(m is not None and ndraw == 1, 'C13.2', 'ECDHCipherText.encrypt', 'ephemeral key = %s' % v,
                   'each ECDH encryption must generate a new ephemeral key inside the call', where=fi.where,
                   expected='X25519PrivateKey.generate() / ec.generate_private_key(curve of the recipient)', found=v, scenario=scen)
         if m is not None and 'curve' in m.groupdict() and m.group('curve'):
